@@ -230,6 +230,25 @@ pub fn scenarios(tier: Tier) -> Vec<C05Scn> {
 				restart: true,
 			});
 		}
+		// an asynchronous signer that stops handing out commitment points at any point and comes back at any later
+		// point (signer_unblocked), with the recipient's monitor writes asynchronous in every completion order: the
+		// revocation secret may only leave once the newer holder commitment is durable
+		if ct == Ct::Static || tier.is_thorough() {
+			v.push(C05Scn {
+				name: format!("{}-async-signer-async-persist", n),
+				ct,
+				ops: if tier.is_thorough() { vec![send(0, 1, 50_000_000, ClaimPolicy::Claim), send(1, 0, 20_000_000, ClaimPolicy::Claim)] } else { vec![send(0, 1, 50_000_000, ClaimPolicy::Claim)] },
+				ops_first: true,
+				// (default order: deliveries before completions, so a write stays in flight while the dance goes on; the
+				// signer may come back at any point: zero-cost alternatives)
+				dev: Deviations { reorder: None, early_op: None, signer_block: Some(1), complete_reorder: if tier.is_thorough() { Some(1) } else { None }, early_release: Some(0), ..Deviations::default() },
+				k: if tier.is_thorough() { 2 } else { 1 },
+				max_disconnects: 0,
+				force: false,
+				tamper: false,
+				restart: true,
+			});
+		}
 		// corrupted commitment_signed (the commitment signature or any one HTLC signature replaced) at every
 		// commitment_signed of a flow whose commitments carry up to three HTLCs
 		v.push(C05Scn {
